@@ -231,6 +231,7 @@ func (s *Service) Update(ctx context.Context, id string, plugin string, data Con
 		s.logger.Warn(ctx).Msgf("connector plugin changing from %v to %v, "+
 			"this may lead to unexpected behavior and configuration issues.", conn.Plugin, plugin)
 	}
+	oldPlugin, oldConfig, oldUpdatedAt := conn.Plugin, conn.Config, conn.UpdatedAt
 	conn.Plugin = plugin
 	conn.Config = data
 	conn.UpdatedAt = time.Now().UTC()
@@ -238,6 +239,8 @@ func (s *Service) Update(ctx context.Context, id string, plugin string, data Con
 	// persist conn
 	err = s.store.Set(ctx, id, conn)
 	if err != nil {
+		// the change did not reach the store: take it back in memory too
+		conn.Plugin, conn.Config, conn.UpdatedAt = oldPlugin, oldConfig, oldUpdatedAt
 		return nil, err
 	}
 
@@ -251,12 +254,15 @@ func (s *Service) AddProcessor(ctx context.Context, connectorID string, processo
 		return nil, err
 	}
 
-	conn.ProcessorIDs = append(conn.ProcessorIDs, processorID)
+	oldIDs, oldUpdatedAt := conn.ProcessorIDs, conn.UpdatedAt
+	conn.ProcessorIDs = append(conn.ProcessorIDs[:len(conn.ProcessorIDs):len(conn.ProcessorIDs)], processorID)
 	conn.UpdatedAt = time.Now().UTC()
 
 	// persist conn
 	err = s.store.Set(ctx, connectorID, conn)
 	if err != nil {
+		// the change did not reach the store: take it back in memory too
+		conn.ProcessorIDs, conn.UpdatedAt = oldIDs, oldUpdatedAt
 		return nil, err
 	}
 
@@ -281,12 +287,20 @@ func (s *Service) RemoveProcessor(ctx context.Context, connectorID string, proce
 		return nil, cerrors.Errorf("%w (ID: %s)", ErrProcessorIDNotFound, processorID)
 	}
 
-	conn.ProcessorIDs = conn.ProcessorIDs[:processorIndex+copy(conn.ProcessorIDs[processorIndex:], conn.ProcessorIDs[processorIndex+1:])]
+	oldIDs, oldUpdatedAt := conn.ProcessorIDs, conn.UpdatedAt
+	// build a new slice instead of shifting the old one in place, so that
+	// the old list is still intact if the store write fails
+	newIDs := make([]string, 0, len(oldIDs)-1)
+	newIDs = append(newIDs, oldIDs[:processorIndex]...)
+	newIDs = append(newIDs, oldIDs[processorIndex+1:]...)
+	conn.ProcessorIDs = newIDs
 	conn.UpdatedAt = time.Now().UTC()
 
 	// persist conn
 	err = s.store.Set(ctx, connectorID, conn)
 	if err != nil {
+		// the change did not reach the store: take it back in memory too
+		conn.ProcessorIDs, conn.UpdatedAt = oldIDs, oldUpdatedAt
 		return nil, err
 	}
 
@@ -314,10 +328,13 @@ func (s *Service) SetState(ctx context.Context, id string, state any) (*Instance
 		}
 	}
 
+	oldState := conn.State
 	conn.State = state
 
 	err = s.store.Set(ctx, id, conn)
 	if err != nil {
+		// the change did not reach the store: take it back in memory too
+		conn.State = oldState
 		return nil, err
 	}
 
